@@ -2,9 +2,9 @@
 C02 — Every reported span is a valid line range of the stored listing (partial).
 
 Proved here, for the model of /repo as it is now:
- * the spans scheduled by hints (`get_program`): always ordered line numbers of the *centrifugated*
-   text (all texts); within the stored listing for hygienic decorated programs; the full sentence
-   is false on the current tree (finding 7) — `C02_hint_spans_counterexample`;
+ * the spans scheduled by hints (`get_program`): valid line ranges of the stored source for EVERY
+   text without the separators 0x1c–0x1f (`C02_hint_spans`); that hypothesis is needed
+   (`C02_hint_spans_needs_noFS`, finding F07d);
  * the span of the `ast_construction:*` error label is (1, number of lines);
  * `get_bindings`: start / end are the line numbers of the first / last captured `POS` (or of the
    paired `POS`), so a binding is a valid range iff those captured lines are ordered and in range.
@@ -43,35 +43,6 @@ theorem C02_hint_spans_centrifugated (src c : Str) (p : Program)
   · rename_i a d hcol
     cases h
     exact collectHints_spans c a d hcol
-
-/-- **C02 (hint spans), partial.** For a decorated program with hygienic lines, markers spelled
-freely, blank lines allowed at both ends of the text, such that — once those blank ends are
-trimmed — the first code line is neither blank nor indented and the last one is not blank:
-whenever `get_program` returns, the stored source is the program without its hints and every
-scheduled span is a valid line range of that stored listing. -/
-theorem C02_hint_spans_partial (d : List (Line × MarkerStyle))
-    (hlines : ((codeLines (d.map Prod.fst)).all okCode && (wholeLabels (d.map Prod.fst)).all cleanLabel &&
-      looseOk (d.map Prod.fst)) = true)
-    (hyg : hygienic (normalised d) = true) (p : Program)
-    (h : getProgram (decorateS d) = .ok p) :
-    p.source = joinNL (base (normalised d)) ∧
-      ∀ e ∈ p.addition.entries ++ p.deletion.entries, ValidSpan p.source e.2.1 e.2.2 := by
-  have hy := hyg_of _ hyg
-  have hprep := prepare_decorateS d (linesOk_of _ hlines) hy.ne
-  obtain ⟨hc, hsrc, hl1, hl2⟩ := decorated_source_and_lines (normalised d) hy
-  rw [← hprep] at hc
-  have hspans := C02_hint_spans_centrifugated _ _ p hc h
-  have hps : p.source = joinNL (base (normalised d)) := by
-    unfold getProgram getProgramFrom at h
-    simp only [hc] at h
-    split at h
-    · cases h
-    · cases h; exact hsrc
-  refine ⟨hps, fun e he => ?_⟩
-  have := hspans e he
-  simp only [ValidSpan] at this ⊢
-  rw [hps, hl2, ← hl1]
-  exact this
 
 /-- **C02 (hint spans), full.** For EVERY text without the separators 0x1c–0x1f (`noFS`): whenever
 `get_program` returns, every span it schedules is a valid line range of the stored source —
@@ -134,10 +105,6 @@ example : getProgram "x = 1\n# paroxython: foo\ny = 2\n".toList =
     .ok ⟨"x = 1\ny = 2".toList, [("foo".toList, [(1, 2)])], []⟩ := by rfl
 example : getProgram "x = 1\n# paroxython: \ny = 2 # paroxython: foo".toList =
     .ok ⟨"x = 1\ny = 2".toList, [("foo".toList, [(2, 2)])], []⟩ := by rfl
-
-/-- Non-vacuity of `C02_hint_spans_partial`. -/
-example : hygienic (normalised [(.code { code := [] }, {}),
-    (.code { code := "x = 1".toList, hints := [⟨.one false, "foo".toList, {}⟩] }, { sp1 := 0 })]) = true := by decide
 
 /-! ## The error label -/
 
